@@ -437,3 +437,94 @@ pub fn reset_all() {
     ledger::reset();
     plain_reset();
 }
+
+// ---- elements with an unusual *representation* (not just an unusual size) ----
+
+/// 3-byte plain element (size not a multiple of its neighbours' alignment; arrays of it have odd byte lengths)
+#[derive(Clone, Copy, PartialEq, Eq, Debug, Hash, PartialOrd, Ord, Default)]
+#[repr(C)]
+pub struct B3(pub [u8; 3]);
+impl Elem for B3 {
+    const NAME: &'static str = "b3";
+    const TRACKED: bool = false;
+    const ZST: bool = false;
+    fn make() -> Self {
+        let v = plain_next();
+        B3([v as u8, (v >> 8) as u8, (v >> 16) as u8])
+    }
+    fn is_clone_of(&self, o: &Self) -> bool {
+        self == o
+    }
+    fn ident(&self) -> u32 {
+        self.0[0] as u32 | (self.0[1] as u32) << 8 | (self.0[2] as u32) << 16
+    }
+}
+
+/// over-aligned plain element: 4 bytes of payload, size and alignment 64
+#[derive(Clone, Copy, PartialEq, Eq, Debug, Hash, PartialOrd, Ord, Default)]
+#[repr(C, align(64))]
+pub struct A64(pub u32);
+impl Elem for A64 {
+    const NAME: &'static str = "a64";
+    const TRACKED: bool = false;
+    const ZST: bool = false;
+    fn make() -> Self {
+        A64(plain_next())
+    }
+    fn is_clone_of(&self, o: &Self) -> bool {
+        self == o
+    }
+    fn ident(&self) -> u32 {
+        // an over-aligned element that sits at a misaligned address was put there by a wrong offset computation
+        if (self as *const Self as usize) % 64 != 0 {
+            ledger::with(|l| l.garbage += 1);
+        }
+        self.0
+    }
+}
+
+/// over-aligned drop-tracked element (12 bytes of payload, size and alignment 32)
+#[repr(C, align(32))]
+pub struct TrA(Tr<2>);
+impl Default for TrA {
+    fn default() -> Self {
+        TrA(Tr::default())
+    }
+}
+impl Clone for TrA {
+    fn clone(&self) -> Self {
+        TrA(self.0.clone())
+    }
+}
+impl PartialEq for TrA {
+    fn eq(&self, o: &Self) -> bool {
+        self.0 == o.0
+    }
+}
+impl Eq for TrA {}
+impl fmt::Debug for TrA {
+    fn fmt(&self, f: &mut fmt::Formatter<'_>) -> fmt::Result {
+        self.0.fmt(f)
+    }
+}
+impl Elem for TrA {
+    const NAME: &'static str = "TrA32";
+    const TRACKED: bool = true;
+    const ZST: bool = false;
+    const COUNTS_CLONES: bool = true;
+    fn make() -> Self {
+        TrA(Tr::new())
+    }
+    fn ident(&self) -> u32 {
+        if (self as *const Self as usize) % 32 != 0 {
+            ledger::with(|l| l.garbage += 1);
+        }
+        self.0.id()
+    }
+    fn is_clone_of(&self, orig: &Self) -> bool {
+        ledger::parent(self.0.id()) == orig.0.id()
+    }
+    fn live_of(ids: &[u32]) -> (Vec<u32>, u64) {
+        (ids.to_vec(), 0)
+    }
+}
